@@ -292,6 +292,15 @@ class Real:
         mark = len(self.log)
         if k == "cset":
             self.caller.run(VARS[int(t[1])].set, int(t[2]))
+            if self.pending_init is not None:
+                # coro_await not started yet: nothing exists on the model side; the `init` line
+                # will carry the caller's mapping as it is when the first send happens
+                self.lines.append("pre " + o)
+                self.kinds.append("cset")
+                self.outs.append(None)
+                self.events.append([])
+                self.first_on_new.append(False)
+                return
             self._emit("op " + o, k, "ret 0", mark)
             return
         if self.pending_init is not None:
@@ -299,7 +308,7 @@ class Real:
             if k != "awsend":
                 return
             r = self._call(lambda: self.it.send(None))
-            line = self.pending_init
+            line = self.pending_init.rsplit(" ", 1)[0] + " " + ",".join(map(str, _snap(self.caller)))
             self.pending_init = None
             out = r if isinstance(r, str) else self._y(r)
             # the model answers two lines (init, awsend); the real code one observation
@@ -418,6 +427,8 @@ def oracle(real: Real, tags: set):
             caller[int(t[2])] = int(t[3])
             if any(e[0] == "seg" for e in real.log):
                 tags.add("caller-write-between-segments")
+            if out is None:
+                continue
         ref = view if isolated else caller
         nseg = 0
         for e in ev:
@@ -462,7 +473,6 @@ def oracle(real: Real, tags: set):
                             expected=view, observed=sup)
         if real.mode == "eager" and kind == "init" and real.it is not None and isinstance(real.it, asyncio.Future):
             tags.add("eager-completed-synchronously")
-    tags.add("mode-" + real.mode)
     return None
 
 
@@ -720,6 +730,7 @@ def explore(ctx, cases, label=""):
     for case in cases:
         real, tags, bad = judge(case)
         ctx.case(case_text(case), sorted(tags))
+        ctx.tag("mode-" + case["mode"])
         if bad is not None:
             small = shrink(case, bad)
             r2, _, b2 = judge(small)
@@ -799,14 +810,14 @@ def run(ctx):
     rng = ctx.rng
     explore(ctx, corpus_cases(), label="corpus: ")
     explore(ctx, list(exhaustive_cases()), label="fixed family: ")
-    n = 12000 if ctx.thorough() else 2500
+    n = 120000 if ctx.thorough() else 12000
     cases = [gen_case(rng) for _ in range(n)]
     for i in range(0, len(cases), 4000):
         explore(ctx, cases[i:i + 4000])
     for c in cases[:3]:
         ctx.sample(c)
     # eager() with the default task factory on a real event loop (oracle only)
-    m = 1500 if ctx.thorough() else 300
+    m = 6000 if ctx.thorough() else 600
     bad_seen = 0
     for _ in range(m):
         case = gen_case(rng)
